@@ -15,15 +15,36 @@ def sameUpToRounding (a b : Rec) : Option String :=
   | some (x, y) => some s!"{a.name} {a.str "name"}[{a.str "idx"}].{x.1}: {x.2} vs {y.2}"
   | none => none
 
+/-- the same results in another arrival order? -/
+def sameMultiset (a b : List Rec) : Bool :=
+  let key (l : List Rec) := (l.map fun r => toString (repr r.kv)).toArray.qsort (· < ·) |>.toList
+  key a == key b
+
+/-- compare the final reports of two batches that held the same results -/
+def compareFinal (prev cur : List Rec × List Rec) : Option String :=
+  if !sameMultiset prev.2 cur.2 then none else
+  if prev.1.length != cur.1.length then some "arrival order changed the number of statistics records" else
+  match (prev.1.zip cur.1).findSome? fun (a, b) => sameUpToRounding a b with
+  | some d => some ("arrival order changed the statistics: " ++ d)
+  | none => none
+
 def prop (trace : List (Rec × List Rec)) : Option String := Id.run do
   let mut s : AggAdapter.DSt := {}
   let mut adds : List Rec := []
-  let mut firstFlush : Option (List Rec) := none
+  -- final report (and the results it covers) of the previous batch; last report of this batch
+  let mut prevFinal : Option (List Rec × List Rec) := none
+  let mut curLast : Option (List Rec × List Rec) := none
   for (op, obs) in trace do
     if obs.any (·.name == "panic") then return some s!"panic during {op.name}"
     let (s', mobs, _) := AggAdapter.stepRec s op
     s := s'
-    if op.name == "cfg" then adds := []
+    if op.name == "cfg" then
+      adds := []
+      if let some c := curLast then
+        if let some p := prevFinal then
+          if let some d := compareFinal p c then return some d
+        prevFinal := some c
+        curLast := none
     if op.name == "add" then adds := adds ++ [op]
     if op.name == "flush" then
       -- histogram sums
@@ -36,17 +57,15 @@ def prop (trace : List (Rec × List Rec)) : Option String := Id.run do
             else (adds.filter fun a => (a.list "ctaken").length > r.nat "idx").length
           if sum != want then
             return some s!"histogram of {r.str "name"}[{r.nat "idx"}] sums to {sum}, it summarises {want} values"
-      -- agreement with the multiset functions of the model
+      -- agreement with the multiset functions of the model (every report is cumulative)
       if mobs.length != obs.length then return some s!"{obs.length} statistics records, expected {mobs.length}"
       for (m, o) in mobs.zip obs do
         if let some d := sameUpToRounding m o then return some ("statistics differ from the multiset's: " ++ d)
-      -- arrival-order independence
-      match firstFlush with
-      | none => firstFlush := some obs
-      | some f =>
-        if f.length != obs.length then return some "arrival order changed the number of statistics records"
-        for (a, b) in f.zip obs do
-          if let some d := sameUpToRounding a b then return some ("arrival order changed the statistics: " ++ d)
+      curLast := some (obs, adds)
+  -- arrival-order (and flush-schedule) independence of the final reports
+  if let some c := curLast then
+    if let some p := prevFinal then
+      if let some d := compareFinal p c then return some d
   return none
 
 end AggProp
